@@ -232,6 +232,30 @@ Definition q_did (st : did_state) (did : bytes) : did_answer :=
   else if entry_deactivated e then DDeactivated
   else match en_doc e with Some d => DFound d (en_seq e) | None => DNotFound end.
 
+(** ** genesis: ExportGenesis lists every stored entry under its DID; InitGenesis stores each entry.
+    GenesisState.Validate: every key is a valid DID and every document is Valid() *)
+Definition did_genesis := list (bytes * did_entry).     (* (DID, entry) pairs; a Go map: order irrelevant *)
+
+Fixpoint export_did (items : list (bytes * did_entry)) : did_genesis :=
+  match items with
+  | [] => []
+  | (k, e) :: r =>
+      match strip_prefix GenConst.did_key_prefix k with
+      | Some did => (did, e) :: export_did r
+      | None => export_did r
+      end
+  end.
+
+Fixpoint init_did (g : did_genesis) (st : did_state) : did_state :=
+  match g with
+  | [] => st
+  | (did, e) :: r => init_did r (set (did_key did) e st)
+  end.
+
+Definition validate_did_genesis (g : did_genesis) : bool :=
+  forallb (fun p => validate_did (fst p) &&
+                    match en_doc (snd p) with Some d => doc_valid d | None => false end) g.
+
 (** ** stateless validation of the three messages.
     [strict] = the repaired validators: create/update need a present, non-empty document whose id is
     the DID of the message (findings F2, F3).  With [false] it is the original code: a missing
